@@ -149,6 +149,109 @@ PROPS = {
         ],
         'assumptions': ['UTF-8 lemmas admitted (see C08)', 'unsafe get_unchecked is given the same precondition as checked slicing (R3 shim)'],
     },
+    'C12': {
+        'level': 'other',
+        'level_text': 'Bounded stand-in only: the contract "line_col / line_of return what pest::Position returns" is checked by exhaustive native enumeration of every string of at most 6 (quick) / 7 (thorough) characters over {LF, CR, 1-, 2-, 3-, 4-byte character} and every boundary offset — the quantifier the property itself names. The functions use iterator adapters (peekable, char_indices().rev().skip_while().find()) that Verus has no specification for, and CBMC on them is intractable beyond L=3; no unbounded proof is claimed.',
+        'level_note': 'pest 2.7.14 compiled into the same test binary is the oracle (that is the property). Exhaustive within the bound, nothing beyond it.',
+        'technique': 'contract (result equals pest::Position) checked by bounded exhaustive enumeration on the real code; no deductive proof within reach (iterator adapters)',
+        'verus': [],
+        'expanded': False,
+        'kani': [],
+        'native': [
+            ('nb_linecol', 'nb_linecol', 'all strings<=6 chars over {LF,CR,a,é,€,😀} x all boundary offsets', 'Q'),
+            ('nb_linecol', 'nb_linecol', 'all strings<=7 chars over {LF,CR,a,é,€,😀} x all boundary offsets', 't', {'VERIF_NB_L': '7'}),
+        ],
+        'explanation': 'Every (string, offset) pair within the bound is executed on the real Position::line_col/line_of and compared with pest::Position; obligations/discharged are zero because nothing is proved beyond the bound.',
+        'assumptions': ['pest::Position (2.7.14) is the reference, as the property states'],
+    },
+    'C13': {
+        'level': 'proof',
+        'level_text': 'Verus proves for all inputs: Span::new returns Some exactly for in-range boundary pairs (and the span it returns), merge_spans succeeds exactly for overlapping or adjacent spans of one input and yields their hull, Position::new/span and the unchecked constructors establish the span invariant. Agreement of get (6 range forms), split, as_str, lines, lines_span with pest::Span is a bounded stand-in (exhaustive native enumeration up to 4/6 characters).',
+        'level_note': NOTE_COMMON + 'str::get / cmp::min,max shims (R3), UTF-8 lemmas admitted; lines/lines_span/get only bounded.',
+        'technique': TECH,
+        'verus': ['spanpos'],
+        'expanded': False,
+        'kani': [],
+        'native': [
+            ('nb_span', 'nb_span', 'all strings<=4 chars over {LF,CR,a,é,€} x all index pairs / spans / sub-ranges / span pairs', 'Q'),
+            ('nb_span', 'nb_span', 'all strings<=6 chars over {LF,CR,a,é,€} x all index pairs / spans / sub-ranges / span pairs', 't', {'VERIF_NB_L': '6'}),
+        ],
+        'assumptions': ['pest::Span (2.7.14) is the reference for the bounded part'],
+    },
+    'C17': {
+        'level': 'proof',
+        'level_text': 'First-match-wins and leaf contents are Verus postconditions for all inputs and child types: the variant a Choice2..12 parse builds is the first alternative whose denotation matches (node_ok), CharRange/ANY expose the first scalar of the remaining input, Insens the consumed spelling, NEWLINE the alternative consumed (CRLF preferred), PEEK/POP/Skip/SkipChar the consumed span. Accessors are loop-free and proved complete by Kani over full-domain payloads for every arity 2..16 (13..16 instantiated with the exported choices!/seq! macros): exactly one _k() is Some and it is the stored value; the if_then/else_if/else_then, reference and consume chains run exactly closure k; get_matched/as_ref/get_all/into_matched/into_all return the fields in grammar order. Repetition iterators are a bounded stand-in; match_choices! is a generator proc macro (n/a).',
+        'level_note': NOTE_COMMON + 'Payload parametricity: accessor bodies never inspect the payload (checked with u8 payloads). match_choices! not covered.',
+        'technique': TECH,
+        'verus': ['choice', 'leaf', 'nodes'],
+        'expanded': True,
+        'kani': [
+            ('k_acc', 'acc_choice2', 'complete', 'q', 'choice accessors and helper chains, arity 2, all alternative indices x all u8 payloads (loop-free)'),
+            ('k_acc', 'acc_choice3', 'complete', 'q', 'choice accessors and helper chains, arity 3, all alternative indices x all u8 payloads (loop-free)'),
+            ('k_acc', 'acc_choice4', 'complete', 't', 'choice accessors and helper chains, arity 4, all alternative indices x all u8 payloads (loop-free)'),
+            ('k_acc', 'acc_choice5', 'complete', 't', 'choice accessors and helper chains, arity 5, all alternative indices x all u8 payloads (loop-free)'),
+            ('k_acc', 'acc_choice6', 'complete', 't', 'choice accessors and helper chains, arity 6, all alternative indices x all u8 payloads (loop-free)'),
+            ('k_acc', 'acc_choice7', 'complete', 'q', 'choice accessors and helper chains, arity 7, all alternative indices x all u8 payloads (loop-free)'),
+            ('k_acc', 'acc_choice8', 'complete', 't', 'choice accessors and helper chains, arity 8, all alternative indices x all u8 payloads (loop-free)'),
+            ('k_acc', 'acc_choice9', 'complete', 't', 'choice accessors and helper chains, arity 9, all alternative indices x all u8 payloads (loop-free)'),
+            ('k_acc', 'acc_choice10', 'complete', 't', 'choice accessors and helper chains, arity 10, all alternative indices x all u8 payloads (loop-free)'),
+            ('k_acc', 'acc_choice11', 'complete', 't', 'choice accessors and helper chains, arity 11, all alternative indices x all u8 payloads (loop-free)'),
+            ('k_acc', 'acc_choice12', 'complete', 'q', 'choice accessors and helper chains, arity 12, all alternative indices x all u8 payloads (loop-free)'),
+            ('k_acc', 'acc_choice13', 'complete', 'q', 'choice accessors and helper chains, arity 13, all alternative indices x all u8 payloads (loop-free)'),
+            ('k_acc', 'acc_choice14', 'complete', 't', 'choice accessors and helper chains, arity 14, all alternative indices x all u8 payloads (loop-free)'),
+            ('k_acc', 'acc_choice15', 'complete', 't', 'choice accessors and helper chains, arity 15, all alternative indices x all u8 payloads (loop-free)'),
+            ('k_acc', 'acc_choice16', 'complete', 'q', 'choice accessors and helper chains, arity 16, all alternative indices x all u8 payloads (loop-free)'),
+            ('k_acc', 'acc_seq2', 'complete', 'q', 'sequence accessors, arity 2, all alternative indices x all u8 payloads (loop-free)'),
+            ('k_acc', 'acc_seq3', 'complete', 'q', 'sequence accessors, arity 3, all alternative indices x all u8 payloads (loop-free)'),
+            ('k_acc', 'acc_seq4', 'complete', 't', 'sequence accessors, arity 4, all alternative indices x all u8 payloads (loop-free)'),
+            ('k_acc', 'acc_seq5', 'complete', 't', 'sequence accessors, arity 5, all alternative indices x all u8 payloads (loop-free)'),
+            ('k_acc', 'acc_seq6', 'complete', 't', 'sequence accessors, arity 6, all alternative indices x all u8 payloads (loop-free)'),
+            ('k_acc', 'acc_seq7', 'complete', 'q', 'sequence accessors, arity 7, all alternative indices x all u8 payloads (loop-free)'),
+            ('k_acc', 'acc_seq8', 'complete', 't', 'sequence accessors, arity 8, all alternative indices x all u8 payloads (loop-free)'),
+            ('k_acc', 'acc_seq9', 'complete', 't', 'sequence accessors, arity 9, all alternative indices x all u8 payloads (loop-free)'),
+            ('k_acc', 'acc_seq10', 'complete', 't', 'sequence accessors, arity 10, all alternative indices x all u8 payloads (loop-free)'),
+            ('k_acc', 'acc_seq11', 'complete', 't', 'sequence accessors, arity 11, all alternative indices x all u8 payloads (loop-free)'),
+            ('k_acc', 'acc_seq12', 'complete', 'q', 'sequence accessors, arity 12, all alternative indices x all u8 payloads (loop-free)'),
+            ('k_acc', 'acc_seq13', 'complete', 'q', 'sequence accessors, arity 13, all alternative indices x all u8 payloads (loop-free)'),
+            ('k_acc', 'acc_seq14', 'complete', 't', 'sequence accessors, arity 14, all alternative indices x all u8 payloads (loop-free)'),
+            ('k_acc', 'acc_seq15', 'complete', 't', 'sequence accessors, arity 15, all alternative indices x all u8 payloads (loop-free)'),
+            ('k_acc', 'acc_seq16', 'complete', 'q', 'sequence accessors, arity 16, all alternative indices x all u8 payloads (loop-free)'),
+        ],
+        'native': [
+            ('nb_peg', 'nb_acc_rep', 'iter_matched / into_iter_matched / iter_all of RepMin and RepMinMax on all strings<=7 chars over {a,b,space}', 'q'),
+        ],
+        'assumptions': ['match_choices! (generator crate proc macro) is outside the verified set'],
+    },
+    'C18': {
+        'level': 'proof',
+        'level_text': 'Kani proves, loop-free over all u8 field values for every arity 2..16, that the hand-written PartialEq of sequences is equality of all fields, that Hash writes every field in order (so equal values hash equally and every field participates), and that clone() == self with equal hash; Span/Position equality and hash are identity-based on (input pointer, start, end). Determinism of entry points (fresh stack and tracker per call, no global state) is a syntactic scan plus a bounded native check (parse twice, compare, hash). "Any order of earlier parses" is a history property outside function contracts.',
+        'level_note': NOTE_COMMON + 'Derived Clone/Hash/PartialEq on rule structs are rustc derives (trusted); histories n/a.',
+        'technique': TECH,
+        'verus': [],
+        'expanded': False,
+        'kani': [
+            ('k_acc', 'eqhash_seq2', 'complete', 'q', 'sequence PartialEq/Hash/Clone, arity 2, all alternative indices x all u8 payloads (loop-free)'),
+            ('k_acc', 'eqhash_seq3', 'complete', 'q', 'sequence PartialEq/Hash/Clone, arity 3, all alternative indices x all u8 payloads (loop-free)'),
+            ('k_acc', 'eqhash_seq4', 'complete', 't', 'sequence PartialEq/Hash/Clone, arity 4, all alternative indices x all u8 payloads (loop-free)'),
+            ('k_acc', 'eqhash_seq5', 'complete', 't', 'sequence PartialEq/Hash/Clone, arity 5, all alternative indices x all u8 payloads (loop-free)'),
+            ('k_acc', 'eqhash_seq6', 'complete', 't', 'sequence PartialEq/Hash/Clone, arity 6, all alternative indices x all u8 payloads (loop-free)'),
+            ('k_acc', 'eqhash_seq7', 'complete', 'q', 'sequence PartialEq/Hash/Clone, arity 7, all alternative indices x all u8 payloads (loop-free)'),
+            ('k_acc', 'eqhash_seq8', 'complete', 't', 'sequence PartialEq/Hash/Clone, arity 8, all alternative indices x all u8 payloads (loop-free)'),
+            ('k_acc', 'eqhash_seq9', 'complete', 't', 'sequence PartialEq/Hash/Clone, arity 9, all alternative indices x all u8 payloads (loop-free)'),
+            ('k_acc', 'eqhash_seq10', 'complete', 't', 'sequence PartialEq/Hash/Clone, arity 10, all alternative indices x all u8 payloads (loop-free)'),
+            ('k_acc', 'eqhash_seq11', 'complete', 't', 'sequence PartialEq/Hash/Clone, arity 11, all alternative indices x all u8 payloads (loop-free)'),
+            ('k_acc', 'eqhash_seq12', 'complete', 'q', 'sequence PartialEq/Hash/Clone, arity 12, all alternative indices x all u8 payloads (loop-free)'),
+            ('k_acc', 'eqhash_seq13', 'complete', 'q', 'sequence PartialEq/Hash/Clone, arity 13, all alternative indices x all u8 payloads (loop-free)'),
+            ('k_acc', 'eqhash_seq14', 'complete', 't', 'sequence PartialEq/Hash/Clone, arity 14, all alternative indices x all u8 payloads (loop-free)'),
+            ('k_acc', 'eqhash_seq15', 'complete', 't', 'sequence PartialEq/Hash/Clone, arity 15, all alternative indices x all u8 payloads (loop-free)'),
+            ('k_acc', 'eqhash_seq16', 'complete', 'q', 'sequence PartialEq/Hash/Clone, arity 16, all alternative indices x all u8 payloads (loop-free)'),
+            ('k_acc', 'span_eq_hash', 'complete', 'q', 'Span/Position ==, hash: all start/end, same and different input objects (loop-free)'),
+        ],
+        'native': [
+            ('nb_peg', 'nb_determinism', 'parse twice / clone / eq / hash / Debug on 4 grammars, all strings<=6 chars; sub-ranges of one string', 'q'),
+        ],
+        'assumptions': ['no static mut / interior mutability in main/src (syntactic scan at check time)', 'derived impls are rustc derives'],
+    },
     'C19': {
         'level': 'proof',
         'level_text': 'Verus proves for all MIN, MAX, SKIP and element types the check paths of RepeatMin / RepeatMinMax / AtomicRepeat and try_check_unit against the greedy bounded-repetition denotation (fails iff a unit fails before MIN, stops at MAX, state after the last matched unit so an unmatched skip is not consumed), and both paths of [T;N], (T1,T2), Option<T>. Parse paths of the repetitions are Kani-bounded on a MIN/MAX grid.',
@@ -178,5 +281,5 @@ NOT_APPLICABLE = {
     'C16': 'getter code is assembled as TokenStreams by the generator (graph.rs); property is about behaviour of emitted accessors for every grammar — no contract over quote! output is expressible; would be translation validation, a different family (DESIGN.md §6)',
     'C20': 'relation between separate generator runs / separately compiled option combinations; outside any single-function contract (DESIGN.md §6)',
 }
-for _p in ['C02', 'C10', 'C12', 'C13', 'C14', 'C15', 'C17', 'C18']:
+for _p in ['C02', 'C10', 'C14', 'C15']:
     NOT_APPLICABLE.setdefault(_p, 'not built yet in this session (planned in DESIGN.md §5); not claimed until its check exists')
